@@ -158,6 +158,10 @@ def fixed_regions(tier):
         out.append(("circle@%d" % md, md, "circle"))
         if md <= 6:
             out.append(("wholesky@%d" % md, md, "wholesky"))
+        if 4 <= md <= 9:
+            # pixels just south of the equator (-1 < Dec < 0: sign of a '-00' degree field) and across RA = 0 / 24h
+            out.append(("equator@%d" % md, md, "equator"))
+            out.append(("rawrap@%d" % md, md, "rawrap"))
     return out
 
 
@@ -173,6 +177,12 @@ def build_fixed(kind, md):
         rad = min(0.4, 300 * hp.nside2resol(2 ** md))
         r.add_circles(1.0, -0.5, rad)
         return r, frozenset(hpset.disc(md, 1.0, -0.5, rad))
+    if kind in ("equator", "rawrap"):
+        ra0, dec0 = (2.0, np.radians(-0.4)) if kind == "equator" else (np.radians(0.05), np.radians(-12.0))
+        rad = max(np.radians(0.7), 3 * hp.nside2resol(2 ** md))
+        rad = min(rad, 12 * hp.nside2resol(2 ** md))
+        r.add_circles(ra0, dec0, rad)
+        return r, frozenset(hpset.disc(md, ra0, dec0, rad))
     if kind == "wholesky":
         r.add_pixels(range(12 * 4 ** md), md)
         return r, frozenset(range(12 * 4 ** md))
@@ -185,7 +195,11 @@ def cli_conversions(ctx):
     tmp = os.environ["VERIF_SCRATCH"]
     logging.disable(logging.CRITICAL)
     for md, variant in [(4, "fresh"), (7, "fresh"), (7, "after_query"), (10, "after_query")]:
-        reg, model = build_fixed("circle", md)
+        # a small circle (the DS9 writer costs ~20 ms per stored pixel)
+        rad = 6 * hp.nside2resol(2 ** md)
+        reg = Region(maxdepth=md)
+        reg.add_circles(1.0, -0.5, rad)
+        model = frozenset(hpset.disc(md, 1.0, -0.5, rad))
         if variant == "after_query":
             reg.sky_within(0.1, 0.1)
         fm, ff, fr = [os.path.join(tmp, "cli12." + e) for e in ("mim", "fits", "reg")]
